@@ -1,9 +1,8 @@
 import Zstd.Basic
 import Zstd.Props.C14
+import Zstd.Props.C11
 import Zstd.Spec.Frame
 import Zstd.Model.FrameDecoder
 import Zstd.Props.C17
 import Zstd.Props.C07
 import Zstd.Props.C09
-import Zstd.Props.C01
-import Zstd.Props.C03
